@@ -154,12 +154,12 @@ structure Outcome where
 deriving Repr, DecidableEq, Inhabited
 
 /-- image views normalise empty sizes to 0x0 (`ImageView::new`) -/
-def normSize (w h : Nat) : Nat × Nat := if w = 0 ∨ h = 0 then (0, 0) else (w, h)
+def normView (w h : Nat) : Nat × Nat := if w = 0 ∨ h = 0 then (0, 0) else (w, h)
 
 /-- `dds::encode` of a `w x h` image (before normalisation) in the format of `row` -/
 def encode (row : Row) (lp : Loop) (w h : Nat) (fault : Option Nat) : Outcome :=
   if !row.encodable then ⟨.unsupportedFormat, 0, []⟩ else
-  let (w, h) := normSize w h
+  let (w, h) := normView w h
   match row.px with
   | .biPlanar .. =>
     if biPlanarRefuses w h then ⟨.invalidSize, 0, [.check]⟩
